@@ -257,6 +257,11 @@ def rule_isolated(ctx):
         ctx.holds("C04.ISOLATED", f.short, f"{n} scenarios with two routers in one interpreter state: tables are per router, nothing crosses over", fi=f)
 
 
+def rule_reentrant(ctx):
+    from .routermodel import check_reentrant
+    check_reentrant(ctx, "C04.REENTRANT", "device")
+
+
 def rule_acc(ctx):
     from .driverworld import build_drivers
     p = ctx.p
@@ -325,6 +330,7 @@ RULES = [
     ("C04.DIR", rule_dir, "direction flags of every message class equal the INDI direction table"),
     ("C04.DEV", rule_dev, "from-client branch: each non-sender device that accepts message.device gets the message exactly once, nobody else; no client gets device-bound messages"),
     ("C04.ISOLATED", rule_isolated, "two routers in one process are independent: per-router tables, no cross-delivery"),
+    ("C04.REENTRANT", rule_reentrant, "devices (un)registered from inside a delivery: everybody registered at its turn is served exactly once"),
     ("C04.HIST", rule_hist, "two-message histories with different senders: the second routing is independent of the first"),
     ("C04.ACC", rule_acc, "accepts truth table of every routing.Device implementation; abstract methods overridden"),
     ("C04.NAME", rule_name, "Driver.name is the configured name"),
